@@ -411,12 +411,14 @@ PROPS["C16"] = {
 
 PROPS["C17"] = {
     "engine": "c17",
+    "builds": ["dap"],
     "level": "exploration",
     "technique": "two-thread stress of the real DebugControl (cycle thread vs. random command scripts with injected delays) with an offline trace-specification checker over the product's own mutex-ordered debug trace, a bounded resume-progress monitor, a wedge watchdog and a state-digest differential against an undebugged run",
     "quick": {"shards": 8, "budget_s": 20, "watchdog_s": 600},
     "thorough": {"shards": 16, "budget_s": 600, "watchdog_s": 3000},
     "floor": {"quick": 3000, "thorough": 100000},
-    "require_counters": {"quick": {"stops": 10000, "resume_actions_while_stopped": 10000, "step_semantics_checked": 1000, "cycles_compared_with_undebugged_run": 10000, "trace_events_checked": 1000000},
+    "require_counters": {"quick": {"stops": 10000, "resume_actions_while_stopped": 10000, "step_semantics_checked": 1000, "cycles_compared_with_undebugged_run": 10000, "trace_events_checked": 1000000,
+                                   "dap_sessions": 60, "dap_stopped_events": 400, "dap_blocked_states_announced": 150, "dap_stop_locations_compared": 150, "dap_final_pause_stops": 60},
                          "thorough": {"stops": 1000000, "step_semantics_checked": 100000}},
     "rule": "program with a 4-deep call chain (PROGRAM -> FB -> FUNCTION with FOR loop -> FUNCTION), a WHILE loop, two cyclic tasks sharing a global and a background program, run for 2-12 cycles; "
             "scripts of 5-200 commands from {Pause, Continue, StepIn, StepOver, StepOut (each with and without a thread id 1..3), set 1-3 breakpoints at statement locations, clear breakpoints, "
@@ -427,8 +429,12 @@ PROPS["C17"] = {
                   "stop channel; (2) a step issued while stopped and aimed at the stopped thread: StepIn stops at that thread's very next statement visit, StepOver/StepOut never at a larger call "
                   "depth than the origin; (3) after Continue/Step the thread writes a new trace line or finishes within 3 s, and after the script a janitor (clear breakpoints + Continue every ms) "
                   "must see the thread finish - no completed cycle for 5 s is a wedge; (4) per-cycle digests of all storage equal the undebugged run.",
-    "level_note": "Scripts never write values, so every state difference is a transparency violation. The 3 s / 5 s bounds are watchdogs for a thread that needs microseconds; the thread is proven "
-                  "blocked (not starved) by the trace ending in hook.wait. The DAP adapter layer (trust-debug) is not driven; its stop forwarding consumes the same stop channel that is counted here.",
+    "level_note": "Part B (every fourth shard, harness/src/engines/c17dap.rs) drives the trust-debug binary over stdio as a DAP client: random continue / pause / next / stepIn / stepOut with "
+                  "thread ids and setBreakpoints with changing line sets on a two-task program paced in real time; the adapter process inherits ST_DEBUG_TRACE, so the trace tells whether the "
+                  "cycle thread is blocked. At quiescent points a blocked thread must have been announced by a `stopped` event that arrived after the last resume request (else: execution "
+                  "stopped without notification), the top stack frame must be on the line of the runtime's stop location, and at the end clear-breakpoints + continue + pause must yield a "
+                  "`stopped` event within 5 s. Scripts never write values, so every state difference is a transparency violation. The 3 s / 5 s bounds are watchdogs for a thread that needs microseconds; the thread is proven "
+                  "blocked (not starved) by the trace ending in hook.wait. Remote-attach sessions of the adapter (stop_remote.rs) are not driven.",
     "assumptions": ["trace lines are appended while the debug mutex is held (true for every trace_debug call in control.rs)", "interleavings are those the OS scheduler and the injected delays produce, not all"],
     "env": {},
     "design_ref": "DESIGN.md section 3, C17",
